@@ -34,9 +34,9 @@ add("leaf_identity_read", "adsb_deku", L + "obl_identity_read", props=["C09", "C
     domain="all 2^16 two-byte buffers = all 8192 codes x 8", functions=["IdentityCode::read"],
     features=("std", "alloc"))
 FILLER = 0x420c41461c8  # "ABCDEFGH" = codes 1..8
-for _m, _nm in [(0x01, "m01"), (0x80, "m80"), (0x03, "m03"), (0x0f, "m0f"), (0xff, "mff")]:
+for _m, _nm in [(0xff, "mff")]:
     add("leaf_ident_read_" + _nm, "adsb_deku", L + "obl_ident_read", args="0x%02x, 0x%x" % (_m, FILLER), props=["C08", "C01", "C20"], unwind=10,
-        domain="mask", functions=["aircraft_identification_read"], features=("std", "alloc"), timeout=1800)
+        domain="all 2^48 six-byte buffers = all 64^8 character strings (length and alignment clauses; contents natively)", functions=["aircraft_identification_read"], features=("std", "alloc"), timeout=900)
 add("leaf_char_lookup", "adsb_deku", L + "obl_char_lookup", props=["C08"], stubs=[],
     domain="all 64 character codes", functions=["CHAR_LOOKUP"])
 add("leaf_sign_value", "adsb_deku", L + "obl_sign_value", props=["C07"], stubs=[],
